@@ -270,6 +270,8 @@ def generate(rng, tier):
     if rng.random() < 0.4:
         for _ in range(rng.choice([1, 1, 2, 3])):
             v = rng.randrange(1, nv + 1)
+            if rng.random() < 0.1:
+                v = nv + rng.randrange(1, 3)  # an assumption about a variable no clause mentions
             assumptions.append(v if rng.random() < 0.5 else -v)
     case = {
         "clauses": clauses,
@@ -485,7 +487,7 @@ def judge(case, r, o: Outcome, label, ref, shipped):
             sols.append(res.solution)
     elif res.solution is not None and st != "INFEASIBLE":
         sols = [res.solution]
-    if clauses and any(len(c) for c in clauses):
+    if (clauses and any(len(c) for c in clauses)) or assumptions:
         for k, sol in enumerate(sols):
             if not isinstance(sol, dict):
                 o.violate("C01", "bad_model", f"{label}: solution #{k} is {sol!r}", **key)
@@ -539,7 +541,7 @@ def reference(case):
     clauses, assumptions = case["clauses"], case["assumptions"]
     if any(len(c) == 0 for c in clauses):
         return {"sat": False, "count": 0}
-    nv = max((abs(l) for c in clauses for l in c), default=0)
+    nv = max([abs(l) for c in clauses for l in c] + [abs(a) for a in assumptions], default=0)  # assumptions may name further variables
     if nv == 0:
         return None
     if nv <= 16:
